@@ -15,7 +15,9 @@ RUNNER_LOOP = (RUN, 'runner.Runner.run_tests')
 FUNCTIONS = {
     'C01': LAYER_FNS + [RUNNER_LOOP]
            # "the test's layer": a test is registered under (and so run with) the layer declared nearest to it
-           + [('find_c09', 'find.tests_from_suite'), ('select_c03', 'find.find_tests'), ('select_c03', 'find.find_tests@order')],
+           + [('find_c09', 'find.tests_from_suite'), ('select_c03', 'find.find_tests'), ('select_c03', 'find.find_tests@order')]
+           # a child process registers at most the layer it was started for (so nothing runs on top of a refused tearDown there)
+           + [('select_c03', 'filter.Filter.global_setup')],
     'C02': [(L, 'runner.handle_layer_failure'), (L, 'runner.tear_down_unneeded'), (L, 'runner.run_layer'),
             RUN_TESTS, RUNNER_LOOP, ('runner_spawn', 'runner.spawn_layer_in_subprocess'),
             # import errors are bad outcomes too: they reach the verdict through tests_from_suite / find_tests
@@ -38,6 +40,7 @@ FUNCTIONS = {
             ('select_c03', 'filter.Filter.global_setup'), ('select_c03', 'find.find_tests'), ('select_c03', 'find.find_tests@order'),
             ('options_c08', 'options.get_options@filters'),
             ('find_c09', 'find.tests_from_suite'),                      # where the --test filter is consulted, and on which name
+            ('find_c14', 'find.find_test_files_'), ('find_c14', 'find.find_test_files'),   # no file is dropped before the filter is asked
             ('runner_spawn', 'runner.spawn_layer_in_subprocess'),       # children decide with the parent's patterns: argv handed on unchanged
             ('configure_c03', 'runner.Runner.configure')],
     'C12': [(RR, TR + 'startTest'), (RR, TR + 'addSkip'), PROTOCOL, RUN_TESTS, RUNNER_LOOP,
@@ -57,7 +60,10 @@ FUNCTIONS = {
             ('formatter_c17', 'formatter.XMLOutputFormattingWrapper.writeXMLReports')]
            # every reported result is recorded exactly once with its own failure / error; the runner writes the reports once
            + [('formatter_c17', 'formatter.XMLOutputFormattingWrapper.' + m) for m in ('test_failure', 'test_error', 'test_success', 'import_errors')]
-           + [('features_c18', 'runner.Runner.run')],
+           + [('features_c18', 'runner.Runner.run')]
+           # the name parsers _record tries first: a complete name or none at all, and no exception (the contract _record assumes)
+           + [('formatter_parsers', 'formatter.' + f) for f in ('filename_to_suite_name_parts', 'parse_doc_file_case',
+                                                                'parse_doc_test_case', 'parse_manuel', 'parse_startup_failure')],
     'C18': [('features_c18', f) for f in (
         'garbagecollection.Threshold.global_setup', 'garbagecollection.Threshold.global_teardown',
         'garbagecollection.Debug.global_setup', 'garbagecollection.Debug.global_teardown',
@@ -85,7 +91,8 @@ FUNCTIONS = {
     'C06': [('runner_sched', 'runner.resume_tests'), ('runner_spawn', 'runner.spawn_layer_in_subprocess'),
             ('process_c07', 'process.SubProcess.report'),       # sentence 1 composes the lossless transfer (C07)
             # what of a child's stdout is kept for its block: everything but the keep-alive dot lines (regex lemma)
-            ('runner_sched', 'runner.DeferredSubprocessResult.write'), ('runner_sched', 'runner.KeepaliveSubprocessResult.write')],
+            ('runner_sched', 'runner.DeferredSubprocessResult.write'), ('runner_sched', 'runner.KeepaliveSubprocessResult.write'),
+            ('select_c03', 'filter.Filter.global_setup')],      # sentence 1: the child of a layer runs exactly that layer (name equality)
     'C14': [('find_c14', f) for f in ('find.strip_py_ext', 'find.contains_init_py', 'find.find_test_files_',
                                       'find.find_test_files', 'find.find_suites', 'find.test_dirs',
                                       'options.get_options@prefix')]
@@ -97,7 +104,8 @@ FUNCTIONS = {
                                           'runner.layer_sort_key', 'runner.layer_sort_key._gather',
                                           'runner.Runner.ordered_layers')]
            + [('runner_sched', 'runner.resume_tests'),        # resumed layers are started in the order they are handed over
-              RUNNER_LOOP],                                      # ... and handed over in the order ordered_layers gave
+              RUNNER_LOOP,                                       # ... and handed over in the order ordered_layers gave
+              ('select_c03', 'filter.Filter.global_setup')],     # a child runs its own layer only: no layer appears twice in the order
 }
 
 NATIVE = {p: p.lower() for p in ['C%02d' % i for i in range(1, 21)]}
@@ -258,8 +266,11 @@ MANIFEST = {
                 "/ error; the test-case loop of writeXMLReports appends one testcase per case, an error / failure child "
                 "exactly for the cases carrying one, and raises nothing (str(exc) may be empty); xml_safe leaves only XML "
                 "Chars (complete enumeration of all code points on the real pattern); Runner.run writes the reports exactly "
-                "once, after the teardown, iff --xml; nothing in the shared report directory is deleted or renamed. "
-                "ElementTree serialisation and the doctest / manuel name parsers are bounded (native oracle).",
+                "once, after the teardown, iff --xml; nothing in the shared report directory is deleted or renamed; the doc-file / "
+                "doctest / manuel / start-up-failure name parsers that _record tries before parse_unittest return a complete "
+                "name or none at all and raise nothing, wherever the doc file lies relative to the current directory "
+                "(filename_to_suite_name_parts: never None, the file name is kept -- the assumed parser contract of _record "
+                "is discharged on the real bodies). ElementTree serialisation is bounded (native oracle).",
         'note': COMMON_NOTE + "Assumed: ElementTree serialisation; the invariant holds for suite infos stored earlier "
                 "(induction over the call history, _record is the only mutation site).",
         'category': 'proof',
